@@ -66,6 +66,13 @@ def retouched_ws_only(run, idx, path, lineno):
     return False
 
 
+def last_line_no_newline(run, idx, path, lineno):
+    """line `lineno` is the last line of a file kept without a final newline: deleting the lines
+    below it changes its line ending, and the deleting session's deletion marker wins the line"""
+    files = run.commits[idx][1]
+    return (not run.opts(path).get("final_newline", True)) and lineno == len(files.get(path, []))
+
+
 def retouched_ws_only_any(run, idx, path, lineno):
     """Same, against any earlier commit (blame at HEAD sees the whole history)."""
     return any(retouched_ws_only(run, k, path, lineno) if k == idx else _same_uid_ws(run, k, idx, path, lineno)
@@ -106,6 +113,8 @@ def check_commit(run, idx, failures):
             sig = "note-misses-ai-line" if missing and not extra else ("note-lists-non-ai-line" if extra and not missing else "note-wrong-lines")
             if missing and not extra and all(retouched_ws_only(run, idx, p, l) for l in missing):
                 sig = "ws-only-retouch-of-committed-ai-line"
+            elif set(missing) == set(extra) and all(last_line_no_newline(run, idx, p, l) for l in missing):
+                sig = "last-line-without-newline-credited-to-session-that-deleted-below"
             failures.append((sig, {"sha": sha, "path": p, "missing": missing, "extra": extra, "line_texts": texts,
                                    "added": sorted(added.get(p, []))}))
     # blame (at HEAD, i.e. only for the last commit): every line's attribution equals its ghost
@@ -126,10 +135,21 @@ def check_commit(run, idx, failures):
             sig = "blame-misses-ai-line" if missing and not extra else ("blame-reports-non-ai-line" if extra and not missing else "blame-wrong-lines")
             if missing and not extra and all(retouched_ws_only_any(run, idx, p, l) for l in missing):
                 sig = "ws-only-retouch-of-committed-ai-line"
+            elif set(missing) == set(extra) and all(last_line_no_newline(run, idx, p, l) for l in missing):
+                sig = "last-line-without-newline-credited-to-session-that-deleted-below"
             failures.append((sig, {"sha": sha, "path": p, "missing": missing, "extra": extra}))
 
 
 def run_scenario(sc):
+    out = _run_scenario(sc)
+    for _ in range(2):
+        if not any(sig == "runner-exception" for sig, _d in out[0]):
+            break
+        out = _run_scenario(sc)       # transient environment trouble (busy machine): retry
+    return out
+
+
+def _run_scenario(sc):
     failures = []
     try:
         with e2e.Env() as env:
@@ -157,7 +177,10 @@ def phase_e2e(res, seeds, threads=16):
     for sc in scs:
         if "_observed" not in sc:
             continue
-        n, bad = S.sys_compare(sc, sc.pop("_observed"), C.run_driver)
+        # the content-identity model has no line endings: files kept without a final newline are left
+        # to the oracle (known finding "last line without newline …")
+        skip = [p for p, o in (sc.get("file_opts") or {}).items() if not o.get("final_newline", True)]
+        n, bad = S.sys_compare(sc, sc.pop("_observed"), C.run_driver, skip_paths=skip)
         ncmp += n; nbad += len(bad)
         if bad and first is None:
             first = {"seed": sc["seed"], "disagreement": bad[0]}
